@@ -1080,7 +1080,7 @@ public:
                     break;
                 case csv_parse_state::escaped_value: 
                     {
-                        if (curr_char == quote_char_)
+                        if (curr_char == quote_char_ || (quote_escape_char_ != quote_char_ && curr_char == quote_escape_char_))
                         {
                             buffer_.push_back(static_cast<CharT>(curr_char));
                             state_ = csv_parse_state::quoted_string;
